@@ -67,7 +67,7 @@ def assemble(unit, bdir):
     reports = {}
     bodies = {}
     for key, cut in unit.cuts.items():
-        ctext, rep = X.extract(cut, unit.types, canaries=(key if unit.mode == 'unwound' else None))
+        ctext, rep = X.extract(cut, unit.types, canaries=(key if (unit.mode == 'unwound' or unit.cover == 'canary') else None))
         tag = '/*@CUT:%s@*/' % key
         if text.count(tag) != 1:
             raise X.ExtractError('template of %s must contain %s exactly once' % (unit.name, tag))
@@ -322,12 +322,25 @@ def _verify_variant(r, unit, cpath, ranges, vname, defines, bdir, tier):
         # a variant whose precondition deliberately makes part of the body unreachable
         # (reachability is established by the sibling variant of the same unit)
         r.cover = {'skipped': 'variant restricts the precondition; see sibling variant'}
-    elif unit.cover and not r.failed and unit.mode == 'unwound':
+    elif unit.cover and not r.failed and (unit.mode == 'unwound' or unit.cover == 'canary'):
         cgb = os.path.join(bdir, vname + '.canary.gb')
         cmd = ['goto-cc'] + dflags + ['-DCXC_CANARY=1', '--function', unit.entry, cpath, '-o', cgb]
         rc, out, err, dt = run(cmd, 120)
         if rc != 0:
             raise ToolError('goto-cc (canary build) failed on %s: %s' % (unit.name, (out + err)[-800:]))
+        if unit.enforce is not None:
+            # inductive unit with canaries (cover-location did not finish): same contract instrumentation
+            cib = os.path.join(bdir, vname + '.canary.i.gb')
+            cmd = ['goto-instrument', '--dfcc', unit.entry, '--enforce-contract', unit.enforce]
+            for g in getattr(r, 'replaced', []):
+                cmd += ['--replace-call-with-contract', g]
+            if unit.loop_contracts:
+                cmd += ['--apply-loop-contracts']
+            cmd += [cgb, cib]
+            rc, out, err, dt = run(cmd, 300)
+            if rc != 0 or not os.path.exists(cib):
+                raise ToolError('goto-instrument (canary build) failed on %s: %s' % (unit.name, (out + err)[-800:]))
+            cgb = cib
         cmd = ['cbmc', '--no-malloc-may-fail', '--no-standard-checks'] + list(unit.flags) + unw + \
               (['--object-bits', str(unit.obj_bits)] if unit.obj_bits else []) + ['--json-ui', cgb]
         r.cmds.append(' '.join(cmd))
